@@ -178,6 +178,23 @@ Definition do_buffered (c : cfg) (st : cstate) (f : fname) (task : Z) : res :=
   else let '(st1, e1) := do_dwell st (short_p c) in
        (st1, e1 ++ [SI (TBuffered task (f_arg f) (f_base f))], Ok).
 
+(* raw instruction lines the trench writers add with G.instruction *)
+Inductive instr :=
+| IMsg                              (* MSGDISPLAY / MSGCLEAR *)
+| IU (u : Q)                        (* G1 U<u:.6f> *)
+| IAssign (v : N) (q : Q)           (* $V = <q:.6f> *)
+| IAssignPlus (v : N) (q : Q)       (* $V = $V + <q:.6f> *)
+| IZvar (v : N).                    (* G1 Z$V *)
+
+Definition instr_tok (i : instr) : tok :=
+  match i with
+  | IMsg => TMsg
+  | IU u => TG1 false 6 None None None (Some (fmt 6 u)) None
+  | IAssign v q => TAssign v (ELit (fmt 6 q))
+  | IAssignPlus v q => TAssign v (EPlus v (fmt 6 q))
+  | IZvar v => TG1 false 0 None None (Some (CVar v)) None None
+  end.
+
 (* ---- the op tree ---- *)
 
 Inductive op :=
@@ -194,6 +211,8 @@ Inductive op :=
 | OBuffered (f : fname) (task : Z)
 | OTic | OToc
 | ORaise                                            (* user code raises here *)
+| OShutter (on : bool)                              (* G.shutter('ON' / 'OFF') *)
+| OInstr (i : instr)                                (* G.instruction(...) *)
 | ORepeat (n : option Z) (body : list op)
 | OFor (v : option N) (n : option Z) (body : list op)
 | OAxisRot (explicit : bool) (body : list op).      (* explicit: an angle argument was given *)
@@ -231,6 +250,8 @@ Fixpoint exec (o : op) (st : cstate) : res :=
   | OTic => (st, [SI TMsg], Ok)
   | OToc => (st, [SI TMsg; SI TMsg; SI TMsg], Ok)
   | ORaise => (st, [], Raised USER)
+  | OShutter on => let '(st1, e1) := do_shutter c st on in (st1, e1, Ok)
+  | OInstr i => (st, [SI (instr_tok i)], Ok)
   | ORepeat n body =>
       match n with
       | None => (st, [], Raised VE)
